@@ -19,6 +19,8 @@ fn with_prop(id: &str, f: &mut dyn FnMut(&dyn Runner) -> i32) -> i32 {
         "C03" => f(&props::c03::prop()),
         "C04" => f(&props::c04::prop()),
         "C05" => f(&props::c05::prop()),
+        "C06" => f(&props::c06::prop06()),
+        "C07" => f(&props::c06::prop07()),
         "C08" => f(&props::c08::prop()),
         "C10" => f(&props::c10::prop()),
         "C11" => f(&props::c11::prop()),
